@@ -75,7 +75,7 @@ fn gen_injections(rng: &mut impl Rng, macs: &[Mac]) -> Vec<Inj> {
             f.extend_from_slice(&body);
             f
         };
-        let kind = rng.gen_range(0..20);
+        let kind = rng.gen_range(0..22);
         let (proto, bytes, what): (u8, Vec<u8>, &str) = match kind {
             0 => (0, rng.bytes_between(0, 60), "random bytes as IPv4"),
             1 => {
@@ -183,6 +183,19 @@ fn gen_injections(rng: &mut impl Rng, macs: &[Mac]) -> Vec<Inj> {
                 h.dst = C.to_be_bytes();
                 (0, wrap(h, udp_to(7000, &payload)), "TTL 0/1 through the router")
             }
+            20 | 21 => {
+                // a fragment whose data ends at, just below or just beyond the largest possible datagram
+                // (offset near 8191 blocks; first or last fragment flag; every length bookkeeping value near 2^16)
+                let fo: u16 = 8191 - rng.gen_range(0..4u16);
+                let end: i64 = 65535 + rng.gen_range(-45i64..=12);
+                let len = (end - fo as i64 * 8).clamp(1, 90) as usize;
+                let mut h = ip4;
+                h.offset = fo;
+                h.mf = rng.gen::<bool>();
+                h.id = rng.gen_range(0..3);
+                let body = rng.bytes(len);
+                (0, wrap(h, body), "fragment ending around the 64 KiB limit")
+            }
             16..=19 => {
                 // compound mutation: one to three header fields wrong AT ONCE and/or the frame cut or
                 // extended, so that fields disagree with each other and with the bytes that arrived.
@@ -201,7 +214,11 @@ fn gen_injections(rng: &mut impl Rng, macs: &[Mac]) -> Vec<Inj> {
                 let actual = f.len() as u16;
                 for _ in 0..rng.gen_range(1..=3) {
                     match rng.gen_range(0..8) {
-                        0 => f[0] = 0x40 | rng.gen_range(0..16u8),
+                        0 => {
+                            if !f.is_empty() {
+                                f[0] = 0x40 | rng.gen_range(0..16u8);
+                            }
+                        }
                         1 => {
                             let r: u16 = rng.gen();
                             let l = *rng.pick(&[0u16, 19, 20, 24, 28, 40, 60, actual.wrapping_sub(1), actual.wrapping_add(1), 0xffff, r]);
